@@ -3,6 +3,7 @@
 P=$1; WT=/tmp/seed4-$P
 cp -r $WT/SEED /tmp/seed4-$P.SEED.bak 2>/dev/null
 git -C $WT checkout -- . || exit 2
+git -C $WT checkout -q --detach $(git -C /repo rev-parse HEAD) || exit 2
 git -C $WT apply $WT/SEED/patch.diff || { echo "patch does not apply"; exit 2; }
 git -C $WT status --short | grep -v '^??'
 exec /verif/tools/try_seed.sh $P $P-4 $WT
